@@ -48,11 +48,41 @@ TABLE = [
      PBT + ": factory dispatch and holder casts over all kinds x width combinations, oracle = class identity + reference parser",
      "8 PDU kinds x 16 (id width, seq width) pairs x CRC x large file through PduFactory.from_raw / inspectors / holder; all 64 (held kind, accessor) pairs per case",
      ORACLE_NOTE, "DESIGN.md section 4 C12"),
+    ("C13", "exploration",
+     "property-based testing: generated fragmentation schedules + exhaustive fragmentations of short streams + Hypothesis rule-based state machine; oracle = stream construction",
+     "packet sequences with constructive garbage cut at generated positions (header-internal cuts over-weighted) with generated parse placement; every subset of cut positions for 5 short "
+     "streams in the thorough tier; append/parse machine; after every parse: packets returned exactly once, in order, byte-identical, queue == not-yet-complete tail",
+     ORACLE_NOTE, "DESIGN.md section 4 C13"),
+    ("C14", "exploration",
+     PBT + " + exhaustive day counts against integer calendar arithmetic (datetime/timedelta) with stated float tolerance",
+     "all 65536 day counts, boundary-weighted milliseconds, datetimes over 1958..2137 at microsecond resolution, additions constructed to land on midnight and on the day limit; "
+     "views, from_datetime, +timedelta, refusals",
+     ORACLE_NOTE, "DESIGN.md section 4 C14"),
+    ("C15", "exploration",
+     PBT + " + exhaustive 16-bit halves of the request id against the reference TM encoder and an explicit source-data layout",
+     "2 x 65536 request ids through pack/unpack/as_u32/from_sp_header, equality/hash iff on pairs differing in one bit, eight report kinds with all step/error widths, helper "
+     "constructors, all 32 (subservice, step, failure) parameter-set combinations",
+     ORACLE_NOTE, "DESIGN.md section 4 C15"),
+    ("C16", "exploration",
+     "model-based testing: Hypothesis rule-based state machine against a reference model of the documented tracker state machine",
+     "histories of up to 50 add_tc / add_tm / remove_entry / remove_completed_entries calls over five telecommands (shared and unknown request ids included); every return value and the "
+     "complete verif_dict compared with the model after every call",
+     ORACLE_NOTE + "; the reference transition function in vf/props/c16.py", "DESIGN.md section 4 C16"),
+    ("C17", "exploration",
+     PBT + " against reference USLP header/frame encoders; managed parameters as generated decoder configuration",
+     "headers over all VCF count lengths and boundary ids; frames over 8 rules x 10 protocol ids x optional insert zone/OCF/FECF x fixed/variable/truncated: octets == reference, "
+     "length field after update, decode with matching parameters identical, five kinds of detectable mismatch raise the USLP errors",
+     ORACLE_NOTE, "DESIGN.md section 4 C17"),
     ("C18", "exploration",
      PBT + " against reference reserved-message layouts; negative clause over arbitrary octets",
      "nine reserved message kinds with all id widths / enum values / name lengths from empty to the full TLV budget decoded back through four routes, every non-matching "
      "getter must return None; arbitrary (incl. non-UTF-8) contents must classify as not reserved without raising",
      ORACLE_NOTE, "DESIGN.md section 4 C18"),
+    ("C19", "exploration",
+     "exhaustive call histories (in-memory) + Hypothesis rule-based state machine with restart points (file-backed) against the model n mod 2^w",
+     "in-memory provider: the complete 2^w+3-call history per width; file-backed: machine with next/current/reinstantiate on fresh and pre-seeded files, long runs with a restart at "
+     "every call, file content inspected between calls; rejection of unreadable / out-of-range / missing files",
+     ORACLE_NOTE + "; restart = new provider object on the same file between calls", "DESIGN.md section 4 C19"),
     ("C20", "exploration",
      PBT + " + exhaustive enumeration of widths 0/1/2 against an int.to_bytes oracle",
      "every (width,value) pair for widths 0,1,2 enumerated; widths 4/8 sampled boundary-weighted over the full range; "
